@@ -4,6 +4,7 @@ import (
 	"fmt"
 
 	"go/ast"
+	"go/build"
 	"go/parser"
 	"go/token"
 	"go/types"
@@ -299,6 +300,7 @@ func (cp *CorpusPkg) AllFiles() []int {
 type CorpusIndex struct {
 	Names []string
 	Files map[string][]string
+	Dirs  map[string]string
 }
 
 func BuildIndex(repo string, extra map[string]string) (*CorpusIndex, error) {
@@ -309,16 +311,21 @@ func BuildIndex(repo string, extra map[string]string) (*CorpusIndex, error) {
 	for k, v := range extra {
 		dirs[k] = v
 	}
-	ix := &CorpusIndex{Files: map[string][]string{}}
+	ix := &CorpusIndex{Files: map[string][]string{}, Dirs: dirs}
 	for n, d := range dirs {
-		gos, _ := filepath.Glob(filepath.Join(d, "*.go"))
 		var fs []string
-		for _, g := range gos {
-			b := filepath.Base(g)
-			if strings.HasSuffix(b, "_test.go") {
-				continue
+		if bp, err := build.Default.ImportDir(d, 0); err == nil && len(bp.CgoFiles) == 0 {
+			// build-constraint aware (real-world packages have per-OS files)
+			fs = append(fs, bp.GoFiles...)
+		} else {
+			gos, _ := filepath.Glob(filepath.Join(d, "*.go"))
+			for _, g := range gos {
+				b := filepath.Base(g)
+				if strings.HasSuffix(b, "_test.go") {
+					continue
+				}
+				fs = append(fs, b)
 			}
-			fs = append(fs, b)
 		}
 		sort.Strings(fs)
 		if len(fs) == 0 {
@@ -329,6 +336,25 @@ func BuildIndex(repo string, extra map[string]string) (*CorpusIndex, error) {
 	}
 	sort.Strings(ix.Names)
 	return ix, nil
+}
+
+// Digest identifies the corpus as found on disk (package names, file names, sizes and
+// modification times): every process of one check must see the same corpus, else run
+// indices do not mean the same runs.
+func (ix *CorpusIndex) Digest(dirs map[string]string) string {
+	var parts []string
+	for _, n := range ix.Names {
+		parts = append(parts, n)
+		for _, f := range ix.Files[n] {
+			st, err := os.Stat(filepath.Join(dirs[n], f))
+			if err != nil {
+				parts = append(parts, f+":gone")
+				continue
+			}
+			parts = append(parts, fmt.Sprintf("%s:%d:%d", f, st.Size(), st.ModTime().UnixNano()))
+		}
+	}
+	return hashStrings(parts...)
 }
 
 // AllFiles is the identity file order of package n.
